@@ -202,6 +202,8 @@ func (t *txnSource) mkCalls(desc string) []eng.Call {
 			out = append(out, eng.Call{Kind: "addmulti", Txns: []*gen.Txn{t.txn(0), t.txn(0), t.txn(0)}})
 		case "addmultibad":
 			out = append(out, eng.Call{Kind: "addmultibad", Txns: []*gen.Txn{t.txn(0), t.txn(0), t.bad()}})
+		case "addmultistale":
+			out = append(out, eng.Call{Kind: "addmultistale", Txns: []*gen.Txn{t.txn(0), t.txn(0)}})
 		case "addmultiabandon":
 			out = append(out, eng.Call{Kind: "addmultiabandon", Txns: []*gen.Txn{t.txn(0), t.txn(0)}})
 		case "compactexpiry":
@@ -297,7 +299,7 @@ func (e *engRunner) sweepTripleX(family string, idx int, gcfg gen.Cfg, rec eng.R
 	return n
 }
 
-var pctKinds = []string{"add", "add", "add", "addbig", "addmulti", "compactall", "autocompact", "clean", "reopen", "close,open", "fresh", "read", "addempty", "addbad", "compactexpiry", "cr01", "cr12", "cr23", "addmultibad", "addmultiabandon"}
+var pctKinds = []string{"add", "add", "add", "addbig", "addmulti", "compactall", "autocompact", "clean", "reopen", "close,open", "fresh", "read", "addempty", "addbad", "compactexpiry", "cr01", "cr12", "cr23", "addmultibad", "addmultiabandon", "addmultistale"}
 
 // randomScenario builds a PCT/uniform scenario.
 func (e *engRunner) randomScenario(family string, idx int, seed int64) {
